@@ -68,7 +68,7 @@ def walk_exec(rng, exact=0, ms=None, steps=None, small=False):
         elif u < 0.82:
             ops.append("d%d" % rng.choice(QS))
         elif u < 0.88:
-            ops.append("s%d" % rng.randint(0, 8))
+            ops.append("s%d" % rng.randint(0, 10))
         elif u < 0.91:
             ops.append("t%d" % rng.choice([0, 1]))
         elif u < 0.93:
@@ -111,26 +111,64 @@ def histories_from_tlc(ctx, cfg):
 
 
 def gen_exec(rng, steps, exact=0, ms=None):
-    kind, ch = pick_kind(rng, ms)
+    vias = [c for w, c in steps if w == "via"]
+    fs = None
+    if vias:
+        # the coding mode is steered with OPUS_SET_FORCE_MODE (single stream); hybrid needs a super-wideband or fullband encoder
+        kind, ch = "S", rng.choice([1, 2]); fs = rng.choice([24000, 48000])
+    else:
+        kind, ch = pick_kind(rng, ms)
     ops = ["x%d" % rng.choice([0, 3, 5, 9]), "s%d" % rng.choice([1, 1, 2, 3, 6, 7, 0])]
     if rng.random() < 0.15:
         ops.append("t1")
+    cur = dict(mode=None, br=None, via="auto"); q = 8
     for what, cls in steps:
         if what == "mode":
-            ops += mode_ops(cls)
+            ops += mode_ops(cls); cur["mode"] = cls
         elif what == "br":
             v = rng.choice(GEN_VALUES["br"][cls])
             if cls in ("mid", "hi") and rng.random() < 0.3:
                 v = rng.randint(8000, 64000) if cls == "mid" else rng.randint(64001, 512000)
-            ops.append("b%d" % v)
+            ops.append("b%d" % v); cur["br"] = cls
         elif what == "buf":
             ops.append("m%d" % rng.choice(GEN_VALUES["buf"][cls]))
         elif what == "dur":
-            ops.append("d%d" % rng.choice(GEN_VALUES["dur"][cls]))
+            q = rng.choice(GEN_VALUES["dur"][cls]); ops.append("d%d" % q)
+        elif what == "via":
+            ops.append("o%d" % {"auto": 0, "hybrid": 1001, "celt": 1002}[cls]); cur["via"] = cls
+            if cls == "hybrid":
+                ops += ["s1", "e%d" % rng.randint(6, 20)]       # enough frames for the mode switch to happen
         ops.append("e%d" % rng.randint(1, 3))
         if rng.random() < 0.2:
-            ops += ["s%d" % rng.randint(0, 8), "e1"]
-    return head(rng, kind, ch, exact) + " | " + " ".join(ops)
+            ops += ["s%d" % rng.randint(0, 10), "e1"]
+    if cur["mode"] == "cvbr" and cur["br"] in ("mid", "hi") and cur["via"] == "celt" and not exact:
+        # the history ends MDCT-only under constrained VBR: stay there for more than a second of demanding input so that the
+        # long-term clause speaks about this history (no control call in between)
+        ops += ["m1500", "s%d" % rng.choice([9, 10, 6, 9, 10]), "e%d" % (int(560 / q) + 2)]
+    return head(rng, kind, ch, exact, fs=fs) + " | " + " ".join(ops)
+
+
+def mode_switch_cvbr_execs(rng, n):
+    """constrained VBR switched on once; the encoder is then steered from the hybrid mode into the MDCT-only mode without any VBR
+    control call in between (signal type + bitrate, forced mode, or bitrate alone) and stays there for seconds of demanding input
+    (noise-burst trains, dense harmonic tones, clicks): the reservoir has to be in charge whatever came before"""
+    out = []
+    for i in range(n):
+        fs = rng.choice([48000, 48000, 24000]); ch = rng.choice([1, 2]); app = rng.choice([2049, 2049, 2048]); q = rng.choice([8, 8, 8, 4, 16])
+        brB = rng.choice([48000, 64000, 96000, 128000]) * (1 if ch == 1 or rng.random() < 0.5 else 1)
+        ops = ["x%d" % rng.choice([3, 5, 5, 8, 10]), "v1", "c1", "d%d" % q, "m1500"]
+        u = i % 3
+        if u == 0:        # the seeded scenario: voice at 24 kb/s fullband, then music at a higher rate
+            ops += ["g3001", "b%d" % rng.choice([20000, 24000, 28000]), "w1105", "s1", "e%d" % (rng.choice([120, 200, 400]) // q + 1),
+                    "g3002", "b%d" % brB, "w0"]
+        elif u == 1:      # forced modes
+            ops += ["b%d" % rng.choice([24000, 32000, 40000]), "o1001", "s1", "e%d" % (rng.choice([80, 200]) // q + 1), "o1002", "b%d" % brB]
+        else:             # VOIP-style start in hybrid, then the bitrate alone pushes the encoder to MDCT-only
+            ops += ["g3001", "b%d" % rng.choice([24000, 32000]), "s1", "e%d" % (200 // q + 1), "g0", "b%d" % rng.choice([128000, 192000, 256000])]
+        for j in range(3 if n <= 40 else 4):
+            ops += ["s%d" % rng.choice([9, 10, 6, 9, 10, 3]), "e%d" % (rng.choice([440, 600, 800]) // q + 1)]
+        out.append(head(rng, "S", ch, 0, fs=fs, app=app) + " | " + " ".join(ops))
+    return out
 
 
 def cvbr_exec(rng, q, ms=None, seconds=3.0, switch=True):
@@ -149,7 +187,7 @@ def cvbr_exec(rng, q, ms=None, seconds=3.0, switch=True):
     tot, target = 0, int(seconds * 400)
     while tot < target:
         n = rng.choice([40, 120, 400, 600]) // q + 1
-        ops += ["s%d" % rng.choice([1, 1, 2, 3, 3, 4, 6, 6, 7, 8, 0, 5]), "e%d" % n]
+        ops += ["s%d" % rng.choice([1, 1, 2, 3, 3, 4, 6, 6, 7, 8, 0, 5, 9, 10]), "e%d" % n]
         tot += n * q
         if switch and rng.random() < 0.12 and tot < target - 450:
             # (a control call restarts the one-second windows, so leave room for one after it)
@@ -316,21 +354,21 @@ class Win:
         return res
 
 
-OBS = dict(packets=0, executions=0, cbr_packets=0, cbr_exact=0, dtx_shaped_in_cbr=0, max_fills=0, speech_layer_bust_packets=0, errors_buffer_too_small=0, other_errors=0,
+OBS = dict(mdct_windows_after_hybrid=0, packets=0, executions=0, cbr_packets=0, cbr_exact=0, dtx_shaped_in_cbr=0, max_fills=0, speech_layer_bust_packets=0, errors_buffer_too_small=0, other_errors=0,
            tiny_buffer_calls=0, cbr_packets_with_some_dtx_frames=0, cvbr_windows_mdct=0, cvbr_windows_any=0, ms_packets=0,
            worst_mdct_excess_over_frame_target=0.0, worst_mdct_excess_ratio=0.0, worst_any_excess_ratio=0.0, worst_ms_excess_ratio=0.0,
            guard_checked=0)
 
 
 def stats(ctx, out):
-    cf = None; es = None; n = 0; wc = Win(); ws = Win(); interesting = False
+    cf = None; es = None; n = 0; wc = Win(); ws = Win(); interesting = False; hyb = False
     with open(out) as f:
         for ln in f:
             n += 1
             e = json.loads(ln)
             k = e["k"]
             if k == "new":
-                cf = e; es = dict(br=-1000, vbr=1, cvbr=1); wc.reset(); ws.reset(); interesting = False
+                cf = e; es = dict(br=-1000, vbr=1, cvbr=1); wc.reset(); ws.reset(); interesting = False; hyb = False
             elif k == "set":
                 if e["ret"] == 0:
                     if e["rq"] == 4002:
@@ -368,6 +406,8 @@ def stats(ctx, out):
                     pay += ln_i - x[0]; cnt = max(cnt, x[1]); celt = celt and h[0] >= 128
                 if not cf["ms"] and r == 2 and e["h"][0] % 4 == 0 and e["h"][1] == 0 and es["vbr"] == 1:
                     OBS["speech_layer_bust_packets"] += 1          # TOC + one zero byte (finding F4 of C20): no C05 clause speaks about it
+                if not cf["ms"] and 96 <= e["h"][0] < 128:
+                    hyb = True                                     # a hybrid packet earlier in this execution
                 if es["vbr"] == 0:
                     OBS["cbr_packets"] += 1
                     if not cf["ms"] and _mixed_frames(e["h"], r):
@@ -388,6 +428,7 @@ def stats(ctx, out):
                         w = wc.step(q, 8 * pay, tgt, ft)
                         if w:
                             OBS["cvbr_windows_mdct"] += 1
+                            OBS["mdct_windows_after_hybrid"] += 1 if hyb else 0
                             OBS["worst_mdct_excess_over_frame_target"] = max(OBS["worst_mdct_excess_over_frame_target"], round(w[0] / (w[2] + 16), 4))
                             OBS["worst_mdct_excess_ratio"] = max(OBS["worst_mdct_excess_ratio"], round(w[0] / w[1], 4))
                             interesting = True
@@ -610,6 +651,7 @@ def run(ctx):
     fast += dtx_cbr_execs(rng, 40 if quick else 400)
     fast += pad_sweep_execs(rng, quick)
     fast += bust_execs(rng, 40 if quick else 600, 0)
+    fast += mode_switch_cvbr_execs(rng, 30 if quick else 300)
     slow = boundary_execs(rng, 1)                      # sanitizer build, exact-size buffers
     for i in range(60 if quick else 700):
         slow.append(walk_exec(rng, exact=1, steps=rng.randint(8, 16), small=(i % 2 == 0)))
